@@ -2,8 +2,11 @@ import LenaModel.DriverUtil
 import LenaModel.Model.C10
 /-! Model driver for C10.  One request = one element, a list `A`, a list `B` and an interleaving pattern:
   {"el":EL,"fs":FS,"A":[ITEM,…],"B":[ITEM,…],"pat":[bool,…]}
-    -> {"flow":[TOK,…], "run":RUN (on merge pat A B), "a":RUN (on A alone), "pred":[[ITEM,…],…] (mergeBlocks),
-        "pickA":…, "pickB":…, "sel":[bool,…] (selection predicate on the interleaved flow)}
+    -> {"flow":[TOK,…], "run":RUN (on merge pat A B), "a":RUN (on A alone), "pred_ok":b (mergeBlocks … = run.blocks),
+        "pickA_ok":b (pick true = a.blocks), "pickB":[[TOK]…], "sel":[bool,…] (selection predicate on the flow),
+        "ispattern":b}
+  optional "shared":true (reference semantics: sharedStep/finalView; + "local", "plain_equal"),
+  optional "second":{"A","B","pat"} (the element object is used again: + "run2","a2","sel2","pred2_ok")
 RUN  = {"blocks":[[ITEM,…],…],"tail":[ITEM,…],"fs":FS,"err":null|name}
 EL   = {"k":"tocsv","dup":b,"header":b} | {"k":"write","outdir":s,"defname":s,"eu":b,"ow":b}
      | {"k":"render","def":s,"templates":[s,…],"sel":null|SEL} | {"k":"png","format":s,"ow":b}
@@ -332,6 +335,8 @@ def ofBlocks (bs : List (List Item)) : Json := ofList (ofList ofItem) bs
 def runJson {σ : Type} (getFS : σ → FS) (r : Run σ Item) : Json :=
   Json.mkObj [("blocks", ofBlocks r.blocks), ("tail", Json.arr #[]), ("fs", ofFS (getFS r.st)), ("err", ofErr r.err)]
 
+def sameBlocks (a b : List (List Item)) : Bool := (ofBlocks a).compress == (ofBlocks b).compress
+
 /-- run on the interleaved flow and on the selected values alone; `pred` is the right-hand side of the
 interleaving law, `sel` the selection predicate on every value of the interleaved flow -/
 def both {σ : Type} (run : σ → List Item → Run σ Item) (sel : Item → Bool) (getFS : σ → FS) (s : σ)
@@ -340,8 +345,11 @@ def both {σ : Type} (run : σ → List Item → Run σ Item) (sel : Item → Bo
   let r := run s flow
   let rA := run s A
   Json.mkObj [("flow", ofList (fun v => ofTok v.tok) flow), ("run", runJson getFS r), ("a", runJson getFS rA),
-    ("pred", ofBlocks (mergeBlocks rA.err.isSome p rA.blocks B)),
-    ("pickA", ofBlocks (pick true p r.blocks)), ("pickB", ofBlocks (pick false p r.blocks)),
+    -- the right-hand side of the interleaving law, and its two readings, against the run (compared here:
+    -- the reply stays small)
+    ("pred_ok", Json.bool (sameBlocks (mergeBlocks rA.err.isSome p rA.blocks B) r.blocks)),
+    ("pickA_ok", Json.bool (sameBlocks (pick true p r.blocks) rA.blocks)),
+    ("pickB", ofList (ofList (fun v => ofTok v.tok)) (pick false p r.blocks)),
     ("sel", ofList Json.bool (flow.map sel)),
     ("ispattern", Json.bool (decide (p.count true = A.length ∧ p.count false = B.length)))]
 
@@ -469,9 +477,10 @@ def handleSecond (el : Json) (w0 : World) (p : List Bool) (A B : List Item) (p2 
     Json.mkObj [("flow", ofList (fun v => ofTok v.tok) flow), ("run", runJson World.fs r1),
       ("a", runJson World.fs a1), ("run2", runJson World.fs r2), ("a2", runJson World.fs a2),
       ("sel", ofList Json.bool (flow.map sel)), ("sel2", ofList Json.bool (flow2.map sel)),
-      ("pred", ofBlocks (mergeBlocks a1.err.isSome p a1.blocks B)),
-      ("pred2", ofBlocks (mergeBlocks a2.err.isSome p2 a2.blocks B2)),
-      ("pickA", ofBlocks (pick true p r1.blocks)), ("pickB", ofBlocks (pick false p r1.blocks))]
+      ("pred_ok", Json.bool (sameBlocks (mergeBlocks a1.err.isSome p a1.blocks B) r1.blocks)),
+      ("pred2_ok", Json.bool (sameBlocks (mergeBlocks a2.err.isSome p2 a2.blocks B2) r2.blocks)),
+      ("pickA_ok", Json.bool (sameBlocks (pick true p r1.blocks) a1.blocks)),
+      ("pickB", ofList (ofList (fun v => ofTok v.tok)) (pick false p r1.blocks))]
   | none => err "bad element for second mode"
 
 /-- `group_by` given as a callable: the menu of the harness -/
@@ -504,8 +513,10 @@ def handleGroupPlots (el : Json) (fs : FS) (p : List Bool) (A B : List Item)
     let r := groupPlotsRun cfg [] flow
     let rA := groupPlotsRun cfg [] A
     let base := [("flow", ofList (fun v => ofTok v.tok) flow), ("run", trunJson fs r), ("a", trunJson fs rA),
-      ("pred", ofBlocks (mergeBlocks (loop (groupPlotsStep cfg) [] A).err.isSome p rA.blocks B)),
-      ("pickA", ofBlocks (pick true p r.blocks)), ("pickB", ofBlocks (pick false p r.blocks)),
+      ("pred_ok", Json.bool (sameBlocks (mergeBlocks (loop (groupPlotsStep cfg) [] A).err.isSome p rA.blocks B)
+        r.blocks)),
+      ("pickA_ok", Json.bool (sameBlocks (pick true p r.blocks) rA.blocks)),
+      ("pickB", ofList (ofList (fun v => ofTok v.tok)) (pick false p r.blocks)),
       ("sel", ofList Json.bool (flow.map sel))]
     match second with
     | none => Json.mkObj base
@@ -515,7 +526,8 @@ def handleGroupPlots (el : Json) (fs : FS) (p : List Bool) (A B : List Item)
       let a2 := groupPlotsRun cfg rA.st A2
       Json.mkObj (base ++ [("run2", trunJson fs r2), ("a2", trunJson fs a2),
         ("sel2", ofList Json.bool (flow2.map sel)),
-        ("pred2", ofBlocks (mergeBlocks (loop (groupPlotsStep cfg) rA.st A2).err.isSome p2 a2.blocks B2))])
+        ("pred2_ok", Json.bool (sameBlocks
+          (mergeBlocks (loop (groupPlotsStep cfg) rA.st A2).err.isSome p2 a2.blocks B2) r2.blocks))])
   | _, _, _ => err "bad groupplots spec"
 
 def patOf (j : Json) : Option (List Bool) := (arr? j).bind (fun a => a.toList.mapM bool?)
